@@ -151,7 +151,9 @@ func equalTrees(a, b *node) bool {
 	case kFile:
 		return a.exec == b.exec && a.data == b.data
 	case kSymlink:
-		return a.target == b.target
+		// Up to POSIX equivalence: the naive build directory creates input
+		// symlinks through a path builder that drops "." and "" components.
+		return canonicalTarget(a.target) == canonicalTarget(b.target)
 	case kSpecial:
 		return true
 	}
